@@ -18,4 +18,18 @@ CHECKS = {
                 'file); IEEE rounding only through the 1e-9 tolerance; harness and NumPy trusted for the comparison.',
         'technique': 'Coq proof (Coquelicot is_derive / RInt / is_lim) + CoqInterval-certified correspondence',
     },
+    'C01': {
+        'text': 'Machine-checked proof (Properties/C01.v): for every number of outputs and every family of time grids '
+                '(overlapping, nested, interleaved, with repeated times, length 1) the predictions handed to each error '
+                'model are the predictions of that output at its own measurement times (union grid + searchsorted index = '
+                'specification), every measurement is scored exactly once, the error-parameter slices partition the '
+                'block, the pointwise values sum to the total for the four real error models, and a constructed object '
+                'evaluates. Tied to /repo on every run: exact vm_compute comparison of the calls recorded by error-model '
+                'doubles inside real chi.LogLikelihood objects (300+ grid arrangements incl. invalid constructions), and '
+                'CoqInterval-certified scores/pointwise values with the real error models.',
+        'note': 'Trusted: Coq kernel + stdlib (the bookkeeping theorems are axiom-free; the score theorems use the Reals '
+                'axioms via Coquelicot), ' + STD_AXIOMS + '; hand-written models Model/TimeGrid.v, Model/LogLik.v; the toy '
+                'mechanistic model and recording error models of the harness; tie is differential.',
+        'technique': 'Coq proof (induction over grids/lists) + exact vm_compute and CoqInterval correspondence',
+    },
 }
